@@ -456,3 +456,32 @@ def r3_5(rep):
                   ({">": ">", "<": "<(swapped)", ">=": ">=", "<=": "<=(swapped)"}[c["op"]]), al.loc(c))
         if m:
             rep.check(re.search(r"-1\*1", m[0]) is not None and "8" in m[0], "straddle-mask", "the mask is align*8 - 1 (found %s)" % m[0][:100], al.loc(c))
+
+
+@RULES.rule("R3.6", "getters of signed bit-fields sign-extend: accessor generation consults the signedness of the declared type", floor=1)
+def r3_6(rep):
+    """C reads `int a:3` holding 0b111 as -1.  The unit accessors return the raw bits zero-extended in a u64, so the generated
+    getter can only be right for signed fields if accessor generation looks at the signedness of the field's type (a signed
+    intermediate integer type, or an explicit shift pair).  Today it never does: `s.set_a(-1); s.a()` yields 7."""
+    prog = rep.prog
+    bodies = [b for b in prog.bodies.values() if b.fact.get("impl_self") == "ir::comp::Bitfield" and
+              (b.fact.get("impl_trait") or "").startswith("codegen::FieldCodegen")]
+    rep.need(bodies, "<Bitfield as FieldCodegen>::codegen")
+    b = bodies[0]
+    reach = prog.reachable([b.path], stop=lambda p: not (p.startswith("codegen::helpers") or p.startswith("ir::layout") or p == b.path))
+    consults = []
+    for p in reach:
+        bb = prog.bodies.get(p)
+        if bb is None:
+            continue
+        for c in bb.calls():
+            callee = (c.get("resolved") or c.get("callee") or "")
+            if callee.endswith("IntKind::is_signed") or callee.endswith("Type::is_signed") or "signed" in callee.split("::")[-1]:
+                consults.append((bb, c))
+        for q in qq.quote_sites(bb) if bb is b else []:
+            t = q.tokens
+            if any(x in ("i8", "i16", "i32", "i64") for x in t) or (("<<" in t) and (">>" in t)):
+                consults.append((bb, q.root))
+    rep.check(bool(consults), "getter-sign-extension:signedness-never-consulted@Bitfield::codegen",
+              "nothing in the generation of bit-field accessors depends on whether the declared type is signed: the getter zero-extends "
+              "every field (`int a:3` holding 0b111 reads back as 7; C reads -1)", b.loc(b.root))
